@@ -8,12 +8,13 @@
 //     (blanks after the delimiter, leading blank lines, a comment, CRLF line ends): the property is
 //     about the statements as scanned (Stmt.Text), so the first kind must be refused when it hits an
 //     applied statement and the second kind must resume;
+//
 //   - file-name shapes on the refusal path: version-only names, several underscores, "h1:"-like
 //     and unusual characters, very long names.
 //
-//	-mode api  Executor.ExecuteN of sql/migrate on a MemDir with the recording driver / store
-//	-mode cli  the real binary ($ATLAS_BIN) on SQLite: `migrate apply` with every --tx-mode and
-//	           the default and the JSON log format
+//     -mode api  Executor.ExecuteN of sql/migrate on a MemDir with the recording driver / store
+//     -mode cli  the real binary ($ATLAS_BIN) on SQLite: `migrate apply` with every --tx-mode and
+//     the default and the JSON log format
 //
 // Both modes print the raw PartialHashes texts ("h1:" + base64(sha256(texts so far))); the model
 // side recomputes them with its own SHA-256 from the scanned statement texts alone, so a change
@@ -55,21 +56,21 @@ func variants(id int) []variant {
 	return []variant{
 		base,
 		// edits that change Stmt.Text
-		mk("lit-blank", " ", " ", "a b", ";\n"),       // double blank inside a literal -> single
-		mk("lit-newline", " ", " ", "a\nb", ";\n"),    // line break inside a literal
-		mk("lit-crlf", " ", " ", "a\r\nb", ";\n"),     // CRLF inside a literal
-		mk("lit-tab", " ", " ", "a\tb", ";\n"),        // tab inside a literal
-		mk("break", " ", "\n", "a  b", ";\n"),         // internal line break
-		mk("indent", " ", "\n    ", "a  b", ";\n"),    // re-indented continuation line
-		mk("indent-tab", " ", "\n\t", "a  b", ";\n"),  // tab vs blanks
-		mk("crlf", " ", "\r\n    ", "a  b", ";\n"),    // CRLF vs LF inside a multi-line statement
-		mk("tab", "\t", " ", "a  b", ";\n"),           // tab between key words
-		mk("blank-delim", " ", " ", "a  b", "  ;\n"),  // blanks before the delimiter
+		mk("lit-blank", " ", " ", "a b", ";\n"),      // double blank inside a literal -> single
+		mk("lit-newline", " ", " ", "a\nb", ";\n"),   // line break inside a literal
+		mk("lit-crlf", " ", " ", "a\r\nb", ";\n"),    // CRLF inside a literal
+		mk("lit-tab", " ", " ", "a\tb", ";\n"),       // tab inside a literal
+		mk("break", " ", "\n", "a  b", ";\n"),        // internal line break
+		mk("indent", " ", "\n    ", "a  b", ";\n"),   // re-indented continuation line
+		mk("indent-tab", " ", "\n\t", "a  b", ";\n"), // tab vs blanks
+		mk("crlf", " ", "\r\n    ", "a  b", ";\n"),   // CRLF vs LF inside a multi-line statement
+		mk("tab", "\t", " ", "a  b", ";\n"),          // tab between key words
+		mk("blank-delim", " ", " ", "a  b", "  ;\n"), // blanks before the delimiter
 		// edits that do not change Stmt.Text (the scanner trims / drops them)
 		mk("blank-after", " ", " ", "a  b", ";   \n"), // blanks after the delimiter
 		{"leading", "\n   " + base.raw, base.lit},     // leading blank line and indentation
 		{"comment", "-- checked on monday\n" + base.raw, base.lit},
-		mk("crlf-eol", " ", " ", "a  b", ";\r\n"),     // CRLF line end
+		mk("crlf-eol", " ", " ", "a  b", ";\r\n"), // CRLF line end
 	}
 }
 
@@ -100,7 +101,7 @@ var names = []string{
 	"11_%s%d%v.sql", // formatting verbs
 	"12_a.b.sql.sql",
 	"13_" + strings.Repeat("x", 200) + ".sql", // very long
-	"14_{{.}}.sql",                            // template syntax (the log formats are templates)
+	"14_{{.}}.sql", // template syntax (the log formats are templates)
 	"15_-- x.sql",
 	"16_a\\b.sql",
 	"17.5_dotted.sql", // a dot inside the version
@@ -203,11 +204,19 @@ type hist struct {
 	oldC     string
 	newC     string
 	editName string
+	// double failure (api): the file fails a second time, as midC (statement 2 re-spelled while it was
+	// still in the tail), at statement k2+1, before the edit
+	midC string
+	k2   int
 }
 
 func (h hist) desc() string {
-	return fmt.Sprintf("file %q of %d statements, first run fails at statement %d, then statement %d edited %s (%q -> %q), tx-modes %v formats %v",
-		h.name, h.n, h.k+1, h.j+1, h.editName, variants(h.j + 1)[h.a].raw, variants(h.j + 1)[h.b].raw, h.modes, h.formats)
+	d := ""
+	if h.midC != "" {
+		d = fmt.Sprintf(" (double failure: then the file becomes %q and fails again at statement %d)", h.midC, h.k2+1)
+	}
+	return fmt.Sprintf("file %q of %d statements, first run fails at statement %d%s, then statement %d edited %s (%q -> %q), tx-modes %v formats %v",
+		h.name, h.n, h.k+1, d, h.j+1, h.editName, variants(h.j + 1)[h.a].raw, variants(h.j + 1)[h.b].raw, h.modes, h.formats)
 }
 
 func mkHist(kind, name string, n, k, j, a, b int) hist {
@@ -266,11 +275,17 @@ func execEvents(evs []string) []string {
 
 func runAPI(w *out.W, h hist) {
 	st := execrun.NewStore()
-	// run 3: the old content is restored (after a completed resume the file is completely applied
-	// and is not looked at again; after a refusal the restored file resumes)
+	// last run: the content the stored hashes were computed from is restored (after a completed resume the
+	// file is completely applied and is not looked at again; after a refusal the restored file resumes)
 	contents := []string{h.oldC, h.newC, h.newC, h.oldC}
 	faults := [][]bool{faultsStopAt(h.k), nil, nil, nil}
-	toks := []string{"4"}
+	base := 0
+	if h.midC != "" {
+		contents = []string{h.oldC, h.midC, h.newC, h.newC, h.midC}
+		faults = [][]bool{faultsStopAt(h.k), faultsStopAt(h.k2 - h.k), nil, nil, nil}
+		base = 1
+	}
+	toks := []string{fmt.Sprint(len(contents))}
 	var obs []string
 	var res []execrun.Result
 	var sc [][]scanned
@@ -306,18 +321,21 @@ func runAPI(w *out.W, h hist) {
 			strings.Join(r.Events, " "), r.Table, rawHashes(st), showNames(fs)))
 	}
 	w.Case(h.id, strings.Join(toks, " "), obs)
-	old, new := find(sc[0], h.name), find(sc[1], h.name)
+	old, new := find(sc[base], h.name), find(sc[base+1], h.name)
 	textChanged := !eq(old.texts, new.texts)
 	w.Count("edit:" + h.editName)
 	w.Count(fmt.Sprintf("k:%d", h.k))
-	w.Count("run1:" + strings.SplitN(res[1].Outcome, ":", 2)[0])
+	w.Count("run1:" + strings.SplitN(res[base+1].Outcome, ":", 2)[0])
 	if textChanged {
 		w.Count("class:text-changed")
 	} else {
 		w.Count("class:text-unchanged")
 	}
+	if h.midC != "" {
+		w.Count("scenario:double-failure")
+	}
 	if h.k >= 1 {
-		w.NonTrivial(fmt.Sprintf("%s|%d|%d|%d|%d", h.name, h.k, h.j, h.a, h.b))
+		w.NonTrivial(fmt.Sprintf("%s|%d|%d|%d|%d|%d|%s", h.name, h.k, h.j, h.a, h.b, h.k2, h.midC))
 	}
 	desc := h.desc()
 	for i, r := range res {
@@ -335,6 +353,15 @@ func runAPI(w *out.W, h hist) {
 		return
 	}
 	k := h.k
+	if h.midC != "" {
+		k = h.k2
+		wantRev := fmt.Sprintf("%s:%d:%d:", execrun.Hex(old.version), h.k2, h.n)
+		if got := execEvents(res[1].Events); res[1].Outcome != "stmterr" || len(got) != h.k2-h.k+1 || !strings.HasPrefix(res[1].Table, wantRev) {
+			w.Violation(h.id, "second-failure-not-recorded", fmt.Sprintf("second attempt: outcome=%s events=%v table=[%s], want stmterr after %d statements and revision %s…: %s", res[1].Outcome, got, res[1].Table, h.k2-h.k, wantRev, desc))
+			return
+		}
+	}
+	res = res[base:]
 	changed := !eq(prefix(new.texts, k), prefix(old.texts, k))
 	if changed {
 		if !strings.HasPrefix(res[1].Outcome, "history:") {
@@ -403,6 +430,28 @@ func genAPI(tier string) []hist {
 					hs = append(hs, mkHist("ws", names[c%len(names)], n, k, j, a, b))
 					c++
 				}
+			}
+		}
+	}
+	// double failure: statement 1 applied, attempt 2 on the file with statement 2 re-spelled (m) applies it and
+	// fails at statement 3; then statement j (applied by attempt 1, by attempt 2, or the tail) is re-spelled
+	for m := 1; m < nv; m++ {
+		for j := 0; j < n; j++ {
+			for b := 0; b < nv; b++ {
+				a := 0
+				if j == 1 {
+					a = m
+				}
+				if a == b || (tier != "thorough" && (m+j+b)%3 != 0) {
+					continue
+				}
+				vs := variants(1)
+				vo, vm, vn := make([]int, n), make([]int, n), make([]int, n)
+				vm[1], vn[1] = m, m
+				vn[j] = b
+				hs = append(hs, hist{kind: "ws", name: names[c%len(names)], n: n, k: 1, k2: 2, j: j, a: a, b: b,
+					oldC: content(n, vo), midC: content(n, vm), newC: content(n, vn), editName: vs[a].name + "->" + vs[b].name})
+				c++
 			}
 		}
 	}
@@ -913,7 +962,7 @@ func main() {
 	switch *mode {
 	case "api":
 		hs := genAPI(*tier)
-		w.Rule = "exhaustive: a file of 3 statements, first run fails at statement k+1 (k=0..2), statement j (every j; quick: k=0 only j=0) rewritten from variant a to variant b for every ordered pair of the 15 white-space variants (11 change Stmt.Text, 4 change only the file), file name cycling through 18 name shapes; + every name shape x {applied, tail} edit; history = ExecuteN (fails), edit + re-hash, ExecuteN, ExecuteN, old content restored + re-hash, ExecuteN. Non-trivial = k>=1 (the hash comparison loop runs); distinct by (name,k,j,a,b)"
+		w.Rule = "exhaustive: a file of 3 statements, first run fails at statement k+1 (k=0..2), statement j (every j; quick: k=0 only j=0) rewritten from variant a to variant b for every ordered pair of the 15 white-space variants (11 change Stmt.Text, 4 change only the file), file name cycling through 18 name shapes; + double failure (statement 1 applied, statement 2 re-spelled while in the tail and applied by the second attempt, which fails at statement 3; then statement j re-spelled; quick: a third of the (m,j,b) triples) + every name shape x {applied, tail} edit; history = ExecuteN (fails), edit + re-hash, ExecuteN, ExecuteN, old content restored + re-hash, ExecuteN. Non-trivial = k>=1 (the hash comparison loop runs); distinct by (name,k,j,a,b)"
 		for i := range hs {
 			hs[i].id = fmt.Sprintf("wsapi-%d", i+1)
 			runAPI(w, hs[i])
